@@ -6,6 +6,7 @@ seqspec = {
   "route": "abs_sorted" | "abs_ins" | "rel",                how the Sequence is constructed
   "perm":  [ints]                                            insertion order for "abs_ins" (any list; indices are taken modulo)
   "pad":   int | None,                                       pad() afterwards
+  "extra_abs": [["on", ch, pitch, vel, tick] | ["off", ch, pitch, tick], ...]   ill-formed decoration (not part of spec_events)
   "off_vel": [int | None, ...]                              release velocities of the note-offs (cyclic)
   "double": None | "self" | "fresh"                         the sequence concatenated with itself (shared message objects)
   "post":  None | "normalise" | "refresh" | "read_abs" | "read_rel"     leaves the object in a different freshness state
@@ -105,6 +106,12 @@ def sequence(spec):
             order = _tie_fix(keyed, msgs)
         for i in order:
             s.add_absolute_message(msgs[i])
+    for e in spec.get("extra_abs", []):
+        # further (possibly ill-formed) note messages added one by one: ["on", channel, pitch, velocity, tick] / ["off", channel, pitch, tick]
+        if e[0] == "on":
+            s.add_absolute_message(Message(message_type=MT.NOTE_ON, channel=e[1], note=e[2], velocity=e[3], time=e[4]))
+        else:
+            s.add_absolute_message(Message(message_type=MT.NOTE_OFF, channel=e[1], note=e[2], time=e[3]))
     if spec.get("pad") is not None:
         s.pad(spec["pad"])
     if spec.get("double") == "self":
